@@ -2,7 +2,8 @@
 Model: coq/theories/RowHistory.v (+ RandRange.v for `unique`); theorems: coq/props/C10.v.
 Case kinds: script (kernel, one unique context), recipe (end to end, one call site; non-unique ones also against the
 interpreter model), mscript (kernel, several call sites), multi (recipes with several call sites, compared as traces;
-stream "scope": parent rows that outlive an iteration, continuation chains)."""
+stream "scope": parent rows that outlive an iteration, continuation chains; stream "values": `parent:` naming a plain
+value - field / hidden field / variable - computed anew for every row)."""
 import io
 from collections import Counter
 
@@ -38,13 +39,27 @@ RULE = ("(i) kernel: the real RowHistory / RandomReferenceContext objects driven
         "continuation file) next to per-iteration parents, targets whose eligible rows overlap between iterations "
         "(just_once, just_once + repeating, prior-and-current-iterations scope, rows added between the pickers) or not, "
         "2-5 iterations also split into continuation runs: the oracle keeps a scope over iteration ends for as long as the "
-        "parent row is the same row of the same run, the model reproduces the first run cell by cell.  "
+        "parent row is the same row of the same run, the model reproduces the first run cell by cell; (v) `parent:` naming a "
+        "plain VALUE (round 5): field_vars().get(parent) may be a field of the row being built, a hidden field or a variable; "
+        "recipes whose parent value is computed anew by a formula for every row (fields) or every iteration (variables): "
+        "ints below / around / above 256, negative (-1, -2 ...), huge, strings built by formulas or mixed text, floats, dates, "
+        "datetimes, booleans, literals, equal values reached by different routes from row to row, classic dialect (most "
+        "results are text) and version 3 (native types); groups = runs of consecutive rows with EQUAL parent values (blocks, "
+        "two values taking turns so that a parent comes back, one value throughout; counted by child_index or by iteration, "
+        "so that a group may span iterations and continuation runs), next to sites with object-row parents and without "
+        "parent; the oracle's scope is the parent VALUE for as long as it lasts (equal values = one scope, whatever objects "
+        "carry them), the model's parent token is the class of equal values; kernel scripts hand get_contextual_state a "
+        "freshly built equal value on every evaluation (ints, negative, huge, str, float, date, datetime, Decimal, tuple, "
+        "values that print alike but differ).  "
         "non-trivial: >= 1 random reference was produced; distinct by case hash")
 TRUSTED = ["harness/oracle_random.py (random.Random._randbelow patched to inject draws)",
            "harness/c10.py drives snowfakery.row_history.RowHistory / RandomReferenceContext directly",
            "harness/c10.py derive_trace: the attribution of reference cells to call sites (table + field [+ parity of the "
            "row id for `if`]) and of parent rows (the row's `par: reference Q` cell), cross-checked against the statically "
-           "expanded row sequence; unattributable runs are skipped, never failed"]
+           "expanded row sequence; unattributable runs are skipped, never failed",
+           "harness/c10.py _group_index: which rows of a `values` recipe carry equal parent values (integer arithmetic on "
+           "child_index / iteration mirrored from the formula the generator wrote), cross-checked on every written row "
+           "against the value the row shows (equal cells <=> equal groups), else the run is skipped"]
 ASSUMPTIONS = ["randint(a,b) returns an integer in [a,b] (theorems quantify over all such draws)",
                "randint(a,b) = a + _randbelow(b-a+1) (CPython), used to replay plain references from the recorded stream",
                "sqlite stores and returns the saved rows faithfully (row payloads are not compared)"]
@@ -181,7 +196,41 @@ def gen_recipe(rng, t=None, p=None, layout=None, unique=None):
 
 
 # ------------------------------------------------------------------ generation: several call sites, kernel level
-def gen_mscript(rng):
+PARENT_VALUE_KINDS = ["small_int", "int", "negative_int", "negative_big", "big_int", "str", "float", "date", "datetime",
+                      "tuple", "decimal", "int_or_text"]
+
+
+def fresh_parent_value(kind, p):
+    """the parent VALUE number p of a kind: equal for equal p, different for different p, and (except for the
+    ints CPython shares) a new object on every call - as a field or variable computed once per row is"""
+    import datetime as _dt
+    import decimal as _dec
+    if kind == "small_int":
+        return int(str(p))
+    if kind == "int":
+        return int(str(256 + p))
+    if kind == "negative_int":              # -1, -2, ... (different values, one of the pairs with equal hashes)
+        return int(str(-p))
+    if kind == "negative_big":
+        return int(str(-300 - p))
+    if kind == "int_or_text":               # 1001, "1001", 1002, "1002": different values that print alike
+        return int(str(1000 + (p + 1) // 2)) if p % 2 else str(1000 + (p + 1) // 2)
+    if kind == "big_int":
+        return int(str(10 ** 20 + p))
+    if kind == "str":
+        return "grp-%d" % p
+    if kind == "float":
+        return float(str(p)) + 0.5
+    if kind == "date":
+        return _dt.date(2020, 1, 1) + _dt.timedelta(days=p)
+    if kind == "datetime":
+        return _dt.datetime(2020, 1, 1, tzinfo=_dt.timezone.utc) + _dt.timedelta(hours=p)
+    if kind == "decimal":
+        return _dec.Decimal(p) / 4
+    return (p, "grp")
+
+
+def gen_mscript(rng, pkind=None, parented=0.3, pswitch=0.06):
     """several call sites (RandomReferenceContext objects obtained through get_contextual_state) over ONE row
     history: sites aimed at the same target (same or different scope / parent) are the rule, not the exception"""
     names = dict(NICKS)
@@ -196,7 +245,7 @@ def gen_mscript(rng):
     sites = []
     for s in range(1, nsites + 1):
         name = main if rng.random() < 0.75 else rng.choice(TABLES + list(NICKS))
-        sites.append({"site": s, "name": name, "glob": rng.random() < 0.15, "parented": rng.random() < 0.3})
+        sites.append({"site": s, "name": name, "glob": rng.random() < 0.15, "parented": rng.random() < parented})
     next_id = {t: counters.get(t, 0) for t in TABLES}
     ptoken = 0
     ops = []
@@ -235,7 +284,7 @@ def gen_mscript(rng):
                     save_main()
         elif r < 0.43:
             ops.append(["ref", rng.choice([main, main] + TABLES + list(NICKS) + ["Zed"]), rng.random() < 0.15])
-        elif r < 0.49:
+        elif r < 0.43 + pswitch:
             ptoken += 1                      # a new parent row begins
         else:
             st = rng.choice(sites)
@@ -250,9 +299,44 @@ def gen_mscript(rng):
             pool[key] -= 1
             ops.append(["uref", st["site"], p, st["name"], st["glob"]])
     sites = [{k: v for k, v in st.items() if k != "fresh"} for st in sites]
+    # what stands for a parent: an object row (one object per parent) or a plain VALUE that is computed anew - an
+    # equal, but not the same, object - every time the call site is evaluated
+    pkind = pkind or rng.choice(["row"] * len(PARENT_VALUE_KINDS) + PARENT_VALUE_KINDS)
     return {"kind": "mscript", "counters": sorted(counters.items()), "names": sorted(names.items()), "ops": ops,
-            "nsites": nsites, "same_target": len({(x["name"]) for x in sites}) < nsites,
+            "nsites": nsites, "same_target": len({(x["name"]) for x in sites}) < nsites, "pkind": pkind,
             "raw": [rng.randint(0, 10 ** 6) for _ in range(120)]}
+
+
+def gen_value_mscript(rng):
+    """kernel scripts whose sites are mostly parented, the parent being a plain value that changes often; the kinds in
+    which DIFFERENT values look alike to a sloppy comparison (equal hashes, equal text) come up more often"""
+    kind = rng.choice(PARENT_VALUE_KINDS + ["negative_int", "int_or_text"] * 3)
+    if rng.random() < 0.5:
+        return gen_mscript(rng, kind, 0.85, 0.16)
+    # a few targets; one or two call sites asked about as often as there are targets under a parent value, then under
+    # another one, then under the first again ...: a comparison that takes equal values for different ones repeats a
+    # target, one that takes different values for equal ones refuses too early
+    names = dict(NICKS)
+    names.update({t: t for t in TABLES})
+    main = rng.choice(["A", "A", "aa", "B"])
+    mt = NICKS.get(main, main)
+    n = rng.randint(2, 5)
+    ops = [["save", mt, main if main in NICKS else None, i] for i in range(1, n + 1)]
+    nsites = rng.randint(1, 2)
+    last = 0
+    for _ in range(rng.randint(2, 5)):
+        p = rng.choice([x for x in (1, 2, 3) if x != last])
+        last = p
+        for _ in range(n if rng.random() < 0.7 else rng.randint(1, n)):
+            ops.append(["uref", rng.randint(1, nsites), p, main, False])
+        if rng.random() < 0.2:
+            ops.append(["reset"])
+            ops += [["save", mt, main if main in NICKS else None, i] for i in range(n + 1, 2 * n + 1)]
+            n *= 2
+            if n > 10:
+                break
+    return {"kind": "mscript", "counters": [], "names": sorted(names.items()), "ops": ops, "nsites": nsites,
+            "same_target": nsites > 1, "pkind": kind, "raw": [rng.randint(0, 10 ** 6) for _ in range(120)]}
 
 
 # ------------------------------------------------------------------ generation: several call sites, recipe level
@@ -455,6 +539,117 @@ def gen_scope(rng):
             "stmts": _json.loads(_json.dumps(stmts)), "sites": sites, "flow": False, "reps": sum(ks), "ks": ks,
             "bias": rng.choice(["lo", "hi", "mix", "mix"]), "raw": [rng.randint(0, 10 ** 6) for _ in range(400)]}
 
+# ------------------------------------------------------------------ generation: `parent:` naming a plain VALUE
+def _group_index(spec, child_index, qid):
+    """the number of the group a picker row belongs to (harness side of the formula written into the recipe)"""
+    k = child_index if spec["src"] == "child" else max(qid - 1, 0)
+    g = k // spec["g"]
+    return {"blocks": g, "alternate": g % 2, "constant": 0}[spec["mode"]]
+
+
+def _value_formula(rng, kind, K, G):
+    """a field definition computing the parent value of group number G (a formula text over the row counter K);
+    several differently written routes per kind, all injective in G"""
+    if kind in ("small_int", "boundary_int", "int", "huge_int", "negative_int"):
+        b = {"small_int": rng.randint(0, 40), "boundary_int": rng.randint(252, 257), "int": rng.choice([300, 1000, 70000]),
+             "huge_int": 10 ** 20, "negative_int": -rng.choice([1, 1, 300, 5000])}[kind]
+        if kind == "negative_int":
+            return rng.choice([f"${{{{ {b} - {G} }}}}", f"${{{{ 0 - ({-b} + {G}) }}}}"])
+        routes = [f"${{{{ {b} + {G} }}}}", f"${{{{ ({b} + {G}) | int }}}}", f"${{{{ ({2 * b} + 2 * {G}) // 2 }}}}",
+                  # equal values computed by two routes, taken in turn from row to row
+                  f"${{{{ ({b} + {G}) if {K} % 2 == 0 else (({2 * b} + 2 * {G}) // 2) }}}}",
+                  f"${{{{ ({G} + {b} + 7 - 7) if {K} % 2 else ({b} + {G}) }}}}"]
+        return rng.choice(routes)
+    if kind == "str":
+        return rng.choice([f"${{{{ 'g' ~ {G} }}}}", f"grp-${{{{ {G} }}}}", f"${{{{ '%03d' | format({G}) }}}}x",
+                           f"${{{{ ('a' ~ {G}) if {K} % 2 else ('a%d' | format({G})) }}}}"])
+    if kind == "float":
+        b = rng.choice([0, 3, 1000])
+        return rng.choice([f"${{{{ {b} + 0.5 + {G} }}}}", f"${{{{ ({2 * b + 1} + 2 * {G}) / 2 }}}}",
+                           f"${{{{ ({b}.5 + {G}) if {K} % 2 else (({2 * b + 1} + 2 * {G}) / 2) }}}}"])
+    if kind == "date":
+        return rng.choice([f"${{{{ date(year=2020, month=3, day=10 + {G}) }}}}", f"${{{{ date('2020-03-1' ~ {G}) }}}}",
+                           f"${{{{ date(year=2020, month=3, day=10 + {G}) if {K} % 2 else date('2020-03-1' ~ {G}) }}}}"])
+    if kind == "datetime":
+        return f"${{{{ datetime(year=2020, month=3, day=10 + {G}, hour=5) }}}}"
+    if kind == "bool":
+        return f"${{{{ {G} == 0 }}}}"
+    return {"str_literal": "lit", "int_literal": rng.choice([7, 1000])}[kind]
+
+
+VALUE_KINDS = ["small_int", "boundary_int", "int", "int", "huge_int", "negative_int", "negative_int", "str", "str", "float", "date",
+               "datetime", "bool", "str_literal", "int_literal"]
+
+
+def gen_values(rng):
+    """`unique: true` + `parent:` naming a plain VALUE instead of an object row: a field of the row being built, a
+    hidden field of it, or a variable; the value is computed anew for every row (field) or every iteration
+    (variable) by a formula, so the rows of one group carry EQUAL parents that are not one object.  Values of every
+    kind a recipe computes (ints below / around / above 256, negative, huge; strings built by formulas or mixed
+    text; floats; dates; datetimes; booleans; literals), equal values computed by different routes, in both
+    dialects (the classic one keeps most formula results as text).  Groups are runs of consecutive rows of one
+    template (blocks of g rows; two values taking turns, so that a parent comes back; one value throughout), counted
+    by the row's child_index or by the iteration, so that a group may also span iterations.  Next to them call sites
+    with an object row as parent and call sites without a parent."""
+    import json as _json
+    import yaml
+    v3 = rng.random() < 0.5
+    t = rng.randint(2, 6)
+    tlayout = rng.choice(["plain", "plain", "once", "nick", "two"])
+    stmts = []
+    if v3:
+        stmts.append({"snowfakery_version": 3})
+    if tlayout == "plain":
+        stmts.append(tpl("A", t)); tos = ["A"]
+    elif tlayout == "once":
+        stmts.append(tpl("A", t, once=True, nick="aa")); tos = ["A", "aa"]
+    elif tlayout == "nick":
+        stmts += [tpl("A", t, nick="aa"), tpl("A", rng.randint(0, 2))]; tos = ["aa", "aa", "A"]
+    else:
+        stmts += [tpl("A", t), tpl("A", rng.randint(0, 2), nick="a2")]; tos = ["A", "A", "a2"]
+    stmts.append({"object": "Q", "count": 1})          # Q.id = number of the iteration
+    sites, pvals, kinds = [], {}, []
+    for k in range(1, rng.randint(1, 2) + 1):
+        table = f"P{k}"
+        where = rng.choice(["field", "field", "hidden", "variable"])
+        kind = rng.choice(VALUE_KINDS)
+        src = "iter" if where == "variable" else rng.choice(["child", "child", "child", "iter"])
+        mode = "constant" if kind.endswith("literal") else "alternate" if kind == "bool" else \
+            rng.choice(["blocks", "blocks", "blocks", "alternate", "alternate", "constant"])
+        n = rng.randint(2, 9) if src == "child" else rng.randint(1, 3)
+        g = rng.choice([1, 2, 2, 3, 4, 5]) if src == "child" else rng.choice([1, 2, 2, 3])
+        spec = {"src": src, "g": g, "mode": mode, "kind": kind, "where": where}
+        K = "child_index" if src == "child" else "(Q.id - 1)"
+        G = {"blocks": f"({K} // {g})", "alternate": f"(({K} // {g}) % 2)", "constant": f"({K} * 0)"}[mode]
+        pname = {"field": "grp", "hidden": "__grp", "variable": f"vgrp{k}"}[where]
+        formula = _value_formula(rng, kind, K, G)
+        fields = {"par": {"reference": "Q"}}
+        if where == "variable":
+            stmts.append({"var": pname, "value": formula})
+        else:
+            fields[pname] = formula
+        spec["cell"] = "grp" if where == "field" else "pv"
+        pvals[table] = {pname: spec}
+        for j in range(1, rng.choice([1, 1, 2, 3]) + 1):
+            r = rng.random()
+            # the value; the object row Q; the row's own field `par`, which holds a reference to that row; none
+            par = pname if (j == 1 or r < 0.5) else "Q" if r < 0.7 else "par" if r < 0.85 else None
+            fields[f"r{j}"] = _sitedef(rng.choice(tos), j == 1 or rng.random() < 0.85, par,
+                                       rng.random() < (0.4 if src == "iter" else 0.1))
+            sd = _site_of_def(fields[f"r{j}"])
+            sd.update({"table": table, "field": f"r{j}", "site": len(sites) + 1, "place": "top", "when": None, "via": "own"})
+            sites.append(sd)
+        if where != "field":
+            fields["pv"] = f"${{{{ {pname} }}}}"       # the value the parent had, shown for the harness
+        stmts.append({"object": table, "count": n, "fields": fields})
+        kinds.append(kind)
+    stmts.append(tpl(MARK))
+    ks = rng.choice([[1], [2], [2], [3], [3], [4], [1, 2], [2, 2]])
+    text = yaml.safe_dump(stmts, sort_keys=False, width=10 ** 6)
+    return {"kind": "multi", "stream": "values", "tlayout": tlayout, "t": t, "text": text, "v3": v3, "pvals": pvals,
+            "stmts": _json.loads(_json.dumps(stmts)), "sites": sites, "flow": False, "reps": sum(ks), "ks": ks,
+            "bias": rng.choice(["lo", "hi", "mix", "mix"]), "raw": [rng.randint(0, 10 ** 6) for _ in range(400)]}
+
 
 def generate(rng, tier):
     cases = []
@@ -472,6 +667,8 @@ def generate(rng, tier):
         cases.append(gen_recipe(rng))
     for _ in range(350 if tier == "quick" else 5000):
         cases.append(gen_mscript(rng))
+    for _ in range(120 if tier == "quick" else 2000):      # mostly parented sites, the parent being a plain value
+        cases.append(gen_value_mscript(rng))
     if tier == "thorough":
         for t in range(0, 6):
             for c in range(1, 5):
@@ -481,6 +678,8 @@ def generate(rng, tier):
         cases.append(gen_multi(rng))
     for _ in range(300 if tier == "quick" else 4000):
         cases.append(gen_scope(rng))
+    for _ in range(260 if tier == "quick" else 4000):
+        cases.append(gen_values(rng))
     return cases
 
 
@@ -614,9 +813,16 @@ def run_mscript(case):
     interp.instance_states = {}
     parents, own = {}, {}
 
+    pkind = case.get("pkind", "row")
+
     def state(site, p, make):
         if getter:
-            ctx.cur = parents.setdefault(p, object()) if p else None
+            if not p:
+                ctx.cur = None
+            elif pkind == "row":
+                ctx.cur = parents.setdefault(p, object())
+            else:
+                ctx.cur = fresh_parent_value(pkind, p)
             return getter(interp, make_state_func=make, name=("site", site), parent="PARENT" if p else None)
         cur = own.get(site)
         if cur is None or cur[0] != p:
@@ -787,8 +993,10 @@ def _expand(case):
     cur, pers = {}, {}
     by_nick, by_table = {}, {}
 
+    pvals = case.get("pvals") or {}
+
     def go(tp, once):
-        for _ in range(tp.get("count", 1)):
+        for child_index in range(tp.get("count", 1)):
             table = tp["object"]
             ids[table] += 1
             myid = ids[table]
@@ -803,6 +1011,12 @@ def _expand(case):
                     by_nick[tp["nickname"]] = (table, myid, tp["nickname"])
                 by_table[table] = (table, myid, None)
             env = dict(cur)
+            for nm, spec in (pvals.get(table) or {}).items():
+                # a `parent:` naming a value: the token stands for the VALUE (rows of one group: equal values, one
+                # token); tokens of values start at 100, those of object rows are the rows' ids
+                env[nm] = 100 + _group_index(spec, child_index, cur.get("Q", 0))
+            if pvals and "Q" in env:
+                env["par"] = env["Q"]       # `parent: par`: the field `par: {reference: Q}` of the row itself
             for v in (tp.get("fields") or {}).values():
                 if isinstance(v, list):
                     for ch in v:
@@ -814,13 +1028,18 @@ def _expand(case):
         cur.clear()
         cur.update(pers)
         for st in case["stmts"]:
-            if "macro" in st or (st.get("just_once") and it > 0):
+            if "object" not in st or (st.get("just_once") and it > 0):       # macros, variables, options
                 continue
             go(st, bool(st.get("just_once")))
     again = list(by_nick.values())
     have = {(t, i) for t, i, _ in again}
     again += [r for r in by_table.values() if (r[0], r[1]) not in have]
     return out, [list(r) for r in again]
+
+
+def _json_key(v):
+    import json as _json
+    return None if v is None else _json.dumps(v)
 
 
 def derive_trace(case, obs):
@@ -847,6 +1066,8 @@ def derive_trace(case, obs):
         return ["ref", sd["to"], sd["glob"]]
     ops, res = [], []
     pos = 0
+    pvals = case.get("pvals") or {}
+    shown = {}                              # (table, name) -> {token: cell}, {cell: token}
     for t, fs in rows:
         if t == "@run-boundary":            # the next run starts here: it saves the surviving just_once rows again
             ops.append(["newrun", again])
@@ -869,6 +1090,13 @@ def derive_trace(case, obs):
             # the parent row is read off the row's own `reference:` cells (one per name a `parent:` uses)
             for cell, nm in (("par", "Q"), ("parn", "qq")):
                 if cell in d and d[cell] != ["ref", "Q", env.get(nm, 0)]:
+                    return None
+            # a parent VALUE is read off the row as well: rows of one group show equal cells, rows of different groups
+            # different ones (else the formulas did not compute what the harness thinks: not this property's business)
+            for nm, spec in (pvals.get(t) or {}).items():
+                cell = _json_key(d.get(spec["cell"]))
+                fw, bw = shown.setdefault((t, nm), ({}, {}))
+                if cell is None or fw.setdefault(env[nm], cell) != cell or bw.setdefault(cell, env[nm]) != env[nm]:
                     return None
             for k in seen:
                 v = d[k]
@@ -1049,7 +1277,7 @@ def _target_name(case):
     return "A"
 
 
-def oracle_trace(label, counters, ops, res, tail, fails):
+def oracle_trace(label, counters, ops, res, tail, fails, pdesc=None):
     """the property, per call site: a reference names an eligible row (a row of the target that exists; of the
     current iteration when it has one, unless the scope is global); a unique call site never returns a row twice
     under one parent row, and it fails only when it has used every eligible row itself"""
@@ -1115,7 +1343,8 @@ def oracle_trace(label, counters, ops, res, tail, fails):
             continue
         name, glob = (op[1], op[2]) if op[0] == "ref" else (op[3], op[4])
         what = f"{'unique ' if op[0] == 'uref' else ''}random_reference to {name}" + \
-               (f" (call site {op[1]}, parent row {op[2] or 'none'})" if op[0] == "uref" else "")
+               (f" (call site {op[1]}, parent {pdesc(op[2]) if pdesc and op[2] else 'row ' + str(op[2] or 'none')})"
+                if op[0] == "uref" else "")
         e = eligible(name, glob)
         if o[0] == "ref":
             got = (o[1], o[2])
@@ -1164,7 +1393,11 @@ def oracle_multi(case, obs):
     tr = derive_trace(case, obs)
     if tr is None:
         return None
-    msg = oracle_trace(f"multi[{case['tlayout']}]", [], tr["ops"], tr["res"], tr["tail"], tr["fails"])
+    pdesc = None
+    if case.get("pvals"):
+        pdesc = lambda p: f"value of group {p - 100}" if p >= 100 else f"row {p}"      # noqa
+    label = f"multi[{'parent values/' if case.get('pvals') else ''}{case['tlayout']}]"
+    msg = oracle_trace(label, [], tr["ops"], tr["res"], tr["tail"], tr["fails"], pdesc)
     if msg and "err" in obs:
         msg += f" (run ended with: {obs.get('msg', '')[:70]!r})"
     return msg
@@ -1172,7 +1405,9 @@ def oracle_multi(case, obs):
 
 def oracle(case, obs):
     if case["kind"] == "mscript":
-        return oracle_trace("sites", case["counters"], case["ops"], obs["obs"], [], False)
+        pk = case.get("pkind", "row")
+        return oracle_trace("sites", case["counters"], case["ops"], obs["obs"], [], False,
+                            None if pk == "row" else (lambda p: f"value {fresh_parent_value(pk, p)!r}"))
     if case["kind"] == "multi":
         return oracle_multi(case, obs)
     return oracle_script(case, obs) if case["kind"] == "script" else oracle_recipe(case, obs)
@@ -1245,6 +1480,51 @@ def stats(cases, obss):
         "failed_in_a_later_iteration_or_run": sum(1 for c, o in sc if "err" in o and
                                                    sum(1 for r in o.get("rows", []) if r[0] in (MARK, "@run-boundary")) > 0),
     }
+    vl = [(c, o) for c, o in multi if c.get("stream") == "values"]
+
+    def groups(c, o):
+        """per (call site, run of consecutive evaluations under one parent value): how many evaluations"""
+        tr = derive_trace(c, o) if ("ok" in o or "err" in o) else None
+        if tr is None:
+            return None
+        runs, last, seen, back, spans = [], {}, set(), 0, 0
+        it = 0
+        for op in tr["ops"] + (tr["tail"] or []):
+            if op[0] == "reset":
+                it += 1
+            elif op[0] == "newrun":
+                last, seen = {}, set()
+            elif op[0] == "uref" and op[2] >= 100:
+                if last.get(op[1], (None,))[0] == op[2]:
+                    if last[op[1]][1] != it and not last[op[1]][2]:
+                        spans += 1
+                        last[op[1]][2] = True
+                    last[op[1]][3][0] += 1
+                else:
+                    if (op[1], op[2]) in seen:
+                        back += 1
+                    seen.add((op[1], op[2]))
+                    cnt = [1]
+                    runs.append(cnt)
+                    last[op[1]] = [op[2], it, False, cnt]
+        return [r[0] for r in runs], back, spans
+    gr = [x for x in (groups(c, o) for c, o in vl) if x]
+    st["parent_values"] = {
+        "cases": len(vl), "dialect": dict(Counter("version 3" if c["v3"] else "classic" for c, _ in vl)),
+        "value_kinds": dict(Counter(sp["kind"] for c, _ in vl for pv in c["pvals"].values() for sp in pv.values())),
+        "parent_is": dict(Counter(sp["where"] for c, _ in vl for pv in c["pvals"].values() for sp in pv.values())),
+        "groups_counted_by": dict(Counter(sp["src"] + "/" + sp["mode"] for c, _ in vl for pv in c["pvals"].values()
+                                          for sp in pv.values())),
+        "site_options": dict(Counter(("unique" if sd["unique"] else "plain") +
+                                     ("+parent:" + (sd["parent"] if sd["parent"] in ("Q", "par") else "value") if sd["parent"] else "")
+                                     + ("+global" if sd["glob"] else "") for c, _ in vl for sd in c["sites"])),
+        "histories": dict(Counter("+".join(map(str, c["ks"])) for c, _ in vl)),
+        "outcomes": dict(Counter(("ok" if "ok" in o else "err:" + str(o.get("err"))) for _, o in vl)),
+        "traces_attributed": len(gr),
+        "evaluations_per_run_of_equal_parent_values": dict(Counter(min(n, 6) for g, _, _ in gr for n in g)),
+        "parent_value_came_back": sum(b for _, b, _ in gr),
+        "runs_of_equal_values_spanning_iterations": sum(s_ for _, _, s_ in gr),
+    }
     st["site_scripts"] = {
         "sites": dict(Counter(c["nsites"] for c, _ in ms)),
         "several_sites_on_one_target": sum(1 for c, _ in ms if c["same_target"]),
@@ -1253,6 +1533,9 @@ def stats(cases, obss):
         "global_scope_ops": sum(1 for c, _ in ms for o in c["ops"] if (o[0] == "uref" and o[4]) or (o[0] == "ref" and o[2])),
         "outcomes": dict(Counter(x[0] if x[0] != "err" else "err:" + x[1] for _, o in ms for x in o.get("obs", []))),
         "states_from": dict(Counter(o.get("states") for _, o in ms)),
+        "parent_stands_for": dict(Counter(c.get("pkind", "row") for c, _ in ms)),
+        "parented_urefs_under_a_value": sum(1 for c, _ in ms if c.get("pkind", "row") != "row"
+                                            for o in c["ops"] if o[0] == "uref" and o[2]),
     }
     return st
 
@@ -1283,8 +1566,9 @@ def shrink(case):
 
 def directed_search(rng, disagreeing):
     return ([gen_script(rng) for _ in range(1500)] + [gen_recipe(rng) for _ in range(600)] +
-            [gen_mscript(rng) for _ in range(1000)] + [gen_multi(rng) for _ in range(1000)] +
-            [gen_scope(rng) for _ in range(1000)])
+            [gen_mscript(rng) for _ in range(1000)] +
+            [gen_value_mscript(rng) for _ in range(600)] + [gen_multi(rng) for _ in range(1000)] +
+            [gen_scope(rng) for _ in range(1000)] + [gen_values(rng) for _ in range(1500)])
 
 
 def match_finding(case, obs, msg, findings):
